@@ -5,6 +5,26 @@ HERE = os.path.dirname(os.path.dirname(os.path.abspath(__file__)))
 
 # id -> (technique, level text, level note, design ref)
 CHECKS = {
+ "C02": ("property-based differential testing against an independent reference evaluator: bounded-exhaustive operand enumeration (depth 1 and 2) + seeded random typed expression trees with shrinking",
+         "Exploration: every node kind x every ordered operand tuple of a boundary pool and a mid-range pool, every depth-2 composition over a reduced pool, and seeded random typed trees to depth 8 are evaluated and compared (value or error class) with a reference evaluator written from the property statements. Holds on what was explored.",
+         "Trusts the reference evaluator (operator table of DESIGN.md §3.3; self-tested against the repository's own expected values at start-up) and the primitive arithmetic of std / rust_decimal / chrono.",
+         "DESIGN.md §4 C02"),
+ "C03": ("property-based testing: exhaustive type-pair cell enumeration against an independent support table + random trees with a buried wrongly-typed literal against the reference evaluator",
+         "Exploration: every unary/binary/ternary node kind x every ordered pair of a pool covering all 9 non-None types (including the values that coincide after coercion) is judged by a support table of its own (unsupported => type error, == across types => false, only casts change type); buried mismatches in random typed trees are compared with the reference evaluator.",
+         "Trusts the support table in harness/src/props/c03.rs and the reference evaluator for the tree part.",
+         "DESIGN.md §4 C03"),
+ "C04": ("property-based testing: exhaustive None-position cell enumeration against the statement's table + random trees with missing lookups against the reference evaluator",
+         "Exploration: every node kind x None in each operand position x every boundary-pool value as the other operand (exhaustive) against the statement's list transcribed as a table; random typed trees in which None arises from lookups that miss, compared with the reference evaluator.",
+         "Trusts the table in harness/src/props/c04.rs and the reference evaluator for the tree part.",
+         "DESIGN.md §4 C04"),
+ "C05": ("model-based property testing over invocation histories: call-logging non-cacheable probes, exhaustive lazy-operand family + seeded random lazy/strict trees, oracle = reference evaluator's predicted call sequence and first error",
+         "Exploration: the exact sequence of user-function invocations and the result/first error are compared with the reference evaluator's (lazy if/and/or/==, everything else once, left to right, key order) on an exhaustive small family and on seeded random boolean-typed trees to depth 5.",
+         "Observation only through the harness's logging probes registered in a RuleSet; trusts the reference evaluator's laziness rules.",
+         "DESIGN.md §4 C05"),
+ "C10": ("property-based testing with unique-leaf inputs: generated nested inputs x access paths (present, absent at each level, off-by-one, wrong step kind) and near-miss symbol/function tables; oracle = direct walk of the input",
+         "Exploration: seeded random nested inputs with unique leaf tokens and near-miss keys x generated access paths, through constructors and through text, compared with a direct walk written in the check itself; symbol/function lookups over near-miss name pools must resolve exactly or fail naming the name.",
+         "Trusts the direct walk in harness/src/props/c10.rs.",
+         "DESIGN.md §4 C10"),
  "C01": ("property-based testing: bounded-exhaustive operand enumeration + seeded random expression trees (proptest, shrinking) against a reference evaluator; panic-catching totality oracle",
          "Exploration: every node kind x every operand tuple of a 130-value boundary pool (exhaustive), all depth-2 compositions over an extremes pool, and seeded random trees to depth 6 are evaluated under a panic-catching boundary; a panic, a Pending future, or a value where the exact result is out of range is a violation. Holds on what was explored; absence beyond it is not established.",
          "Trusts the reference evaluator's range rules (harness/src/model/eval.rs) and the primitive checked arithmetic of std / rust_decimal / chrono; build uses overflow-checks=on.",
